@@ -138,6 +138,17 @@ def _memo_id(a):
     return None
 
 
+class _LibBound:
+    """library method (modelled) bound to an object: reached through super()"""
+
+    def __init__(self, model, target):
+        self.model = model
+        self.target = target
+
+    def call_model(self, I, args, kwargs):
+        return self.model(I, [self.target] + list(args), kwargs)
+
+
 class _RepeatBody:
     def __init__(self, part):
         self.part = part
@@ -1036,7 +1047,7 @@ class Interp:
                     if dataclasses.is_dataclass(x.cls):
                         continue
         if isinstance(a, SObj) or isinstance(b, SObj):
-            return a is b
+            return identical(a, b) if isinstance(a, SObj) and isinstance(b, SObj) else False
         if isinstance(a, SStr) or isinstance(b, SStr):
             if is_strlike(a) and is_strlike(b):
                 return str_eq(self.expand_known(a), self.expand_known(b))
@@ -1198,6 +1209,10 @@ class Interp:
                         return BoundMethod(fr, obj.obj)
                     if k is object and name == '__init__':
                         return _bi.object.__init__
+                    lm = self.world.lib_model(f)
+                    if lm is not None:
+                        target = obj.obj
+                        return _LibBound(lm, target)
                     self.unsupported(f"super().{name} not in source", node)
             raise PyRaise(AttributeError)
         r = self.models.get_attr(self, obj, name, node)
